@@ -56,6 +56,7 @@ var props = map[string]*Prop{
 		Assumptions: []string{"the protected list is /etc,/root,/usr,/bin,/sbin,/boot (the list the code documents)", "'..' after a not-yet-existing component has no agreed meaning and is skipped (counted)"},
 		Bounds:      map[string]string{"quick": "<=3 segments", "thorough": "<=4 segments"},
 		Units: []Unit{
+			{Name: "cli-commands", Pkg: "internal/cli", Test: "TestVerifC20CLI", Shards: sh(8, 8), TimeoutS: sh(900, 900), Builds: []Build{{Pkg: "cmd/sfw", Out: "sfw"}}},
 			{Name: "paths", Pkg: "pkg/storage/pebbledb", Test: "TestVerifC20", Shards: sh(8, 16), TimeoutS: sh(600, 3000)},
 		},
 	},
